@@ -37,7 +37,7 @@ def E(*es):
 NOVEC = dict(VecSystems=set(), VecValues=set())
 EMPTY = dict(ActL=set(), ActM=set(), ActT=set(), ActA=set(), DeclL=set(), DeclM=set(), DeclT=set(), DeclA=set(),
              Values=set(), NumValues=set(), Prefixes=set(), Shapes=set(), MaxSeq=0, TupleDecls=False,
-             MaxParams=0, ResultKinds=set(), **NOVEC)
+             MaxParams=0, ResultKinds=set(), CallStyles=set(), **NOVEC)
 
 CFG = {
     "quick": {
@@ -45,7 +45,7 @@ CFG = {
         "pairs": dict(ActL=E(0, .5, 1, 2), ActM=E(0, 1), ActT=E(-2, -1, 0), ActA=E(-1, 0, 1),
                       DeclL=E(0, 1, 2), DeclM=E(0, 1), DeclT=E(-2, -1, 0), DeclA=E(0, 1),
                       Values={"one", "fhuge", "minute", "zero", "nan"},
-                      NumValues={"one", "f25", "huge", "fminute", "zero", "fzero", "inf", "finf", "nan"},
+                      NumValues={"one", "sone", "f25", "sf25", "huge", "fminute", "zero", "fzero", "inf", "finf", "nan"},
                       Prefixes={"base", "kilo"}, Shapes={"scalar"}, MaxSeq=0, TupleDecls=False,
                       MaxParams=1, ResultKinds={"none"}, **NOVEC),
         # sequences of 0..3 elements (also declared element-wise) and vectors in the three systems
@@ -57,7 +57,9 @@ CFG = {
         # results and sequence elements of extreme magnitude (finite, non-zero, outside the range of doubles)
         "extreme_results": dict(ActL=E(0, 1), ActM=E(0), ActT=E(-1, 0), ActA=E(0),
                                 DeclL=E(0, 1), DeclM=E(0), DeclT=E(0), DeclA=E(0),
-                                Values={"one", "fhuge", "minute"}, NumValues={"one", "huge", "fminute"}, Prefixes={"base"},
+                                Values={"one", "fhuge", "minute"},
+                                # results that are bare numbers: Python int / float, SymPy Integer / Float, extremes
+                                NumValues={"one", "sone", "f25", "sf25", "huge", "fminute"}, Prefixes={"base"},
                                 Shapes={"scalar"}, MaxSeq=0, TupleDecls=False, MaxParams=1,
                                 ResultKinds={"none", "dim", "same"}, **NOVEC),
         "extreme_seqs": dict(ActL=E(0, 1), ActM=E(0), ActT=E(-1, 0), ActA=E(0),
@@ -67,7 +69,7 @@ CFG = {
         # the call protocol: two guarded parameters, call styles, checked results
         "protocol": dict(ActL=E(0, 1), ActM=E(0), ActT=E(0), ActA=E(0, 1),
                          DeclL=E(0, 1), DeclM=E(0), DeclT=E(0), DeclA=E(0),
-                         Values={"one"}, NumValues={"one", "zero", "fminute"}, Prefixes={"base"},
+                         Values={"one"}, NumValues={"f25", "zero"}, Prefixes={"base"},
                          Shapes={"scalar"}, MaxSeq=0, TupleDecls=False, MaxParams=2,
                          ResultKinds={"none", "dim", "same"}, **NOVEC),
     },
@@ -75,7 +77,7 @@ CFG = {
         "pairs": dict(ActL=E(-2, -1, 0, .5, 1, 2), ActM=E(0, 1), ActT=E(-2, -1, -.5, 0, 1), ActA=E(-1, 0, 1),
                       DeclL=E(-1, 0, 1, 2), DeclM=E(0, 1), DeclT=E(-2, -1, 0), DeclA=E(0, 1),
                       Values={"one", "big", "tiny", "cplx", "huge", "fhuge", "minute", "fminute", "zero", "inf", "nan"},
-                      NumValues={"one", "neg", "f25", "big", "huge", "fhuge", "minute", "fminute", "zero", "fzero", "inf", "finf",
+                      NumValues={"one", "sone", "neg", "f25", "sf25", "big", "huge", "fhuge", "minute", "fminute", "zero", "fzero", "inf", "finf",
                                  "ninf", "nan", "fnan"},
                       Prefixes={"base", "kilo", "milli"}, Shapes={"scalar"}, MaxSeq=0, TupleDecls=False,
                       MaxParams=1, ResultKinds={"none"}, **NOVEC),
@@ -91,11 +93,18 @@ CFG = {
                          ResultKinds={"none", "same"}, **NOVEC),
         "results": dict(ActL=E(-1, 0, 1, 2), ActM=E(0, 1), ActT=E(-2, 0), ActA=E(-1, 0, 1),
                         DeclL=E(1), DeclM=E(0), DeclT=E(0), DeclA=E(0),
-                        Values={"one", "fhuge", "minute", "zero", "nan"}, NumValues={"one", "fminute", "zero"}, Prefixes={"base"},
+                        Values={"one", "fhuge", "minute", "zero", "nan"},
+                        NumValues={"one", "sone", "f25", "sf25", "fminute", "zero"}, Prefixes={"base"},
                         Shapes={"scalar"}, MaxSeq=0, TupleDecls=False, MaxParams=1,
                         ResultKinds={"dim", "same"}, **NOVEC),
     },
 }
+
+ALL_STYLES = {"pos", "kw", "kwrev", "mixed", "optskip", "optskipkw", "optgiven"}
+for _tier in CFG.values():
+    for _label, _c in _tier.items():
+        # the call-style product is explored where several parameters exist; elsewhere positional / keyword
+        _c.setdefault("CallStyles", ALL_STYLES if _label == "protocol" else {"pos", "kw"})
 
 INVARIANTS = ["TypeOK", "RunsOnlyIfAllPassed", "ReturnsOnlyIfResultOK", "RefusalIsJustified", "FinalIsAnOutcome",
               "VerdictIndependentOfMagnitude", "VerdictIndependentOfPrefix", "VerdictIndependentOfCallStyle",
@@ -128,7 +137,7 @@ def _real():
             unit={"L": units.meter, "M": units.kilogram, "T": units.second, "I": units.ampere, "K": units.kelvin,
                   "N": units.mole, "J": units.candela},
             value={"one": 1, "three": 3, "neg": -7, "f25": 2.5, "big": 10**9, "tiny": sp.Rational(1, 10**6),
-                   "cplx": 1 + 2 * sp.I, "huge": sp.Integer(10)**400, "fhuge": sp.Float("1e400"),
+                   "sone": sp.Integer(1), "sf25": sp.Float(2.5), "cplx": 1 + 2 * sp.I, "huge": sp.Integer(10)**400, "fhuge": sp.Float("1e400"),
                    "minute": sp.Rational(1, 10**400), "fminute": sp.Float("1e-330"), "zero": 0, "fzero": 0.0, "inf": sp.oo, "finf": float("inf"), "ninf": -sp.oo,
                    "nan": sp.nan, "fnan": float("nan")},
             prefix={"base": 1, "kilo": prefixes.kilo, "milli": prefixes.milli},
@@ -193,6 +202,24 @@ def build_decl(x, salt=0):
 NAMES = ["p1", "p2", "p3"]
 
 
+def pass_arguments(style, args):
+    """Call style of the model -> (positional arguments, keyword arguments in the order they are written)."""
+    named = [(NAMES[i], a) for i, a in enumerate(args)]
+    if style == "pos":
+        return list(args), {}
+    if style == "kw":
+        return [], dict(named)
+    if style in ("kwrev", "optskipkw"):
+        return [], dict(reversed(named))
+    if style == "mixed":
+        return [args[0]], dict(reversed(named[1:]))
+    if style == "optskip":
+        return [args[0]], dict(named[1:])
+    if style == "optgiven":
+        return [], dict([("opt", 5)] + named)
+    raise KeyError(style)
+
+
 def make_call(call, salt=0):
     """Run one call of the model on a probe function guarded by the real decorators.
     Returns (outcome, ran, message): outcome = "returned" or the exception type name."""
@@ -224,7 +251,18 @@ def make_call(call, salt=0):
             raise res.error
         return res
 
-    if n == 1:
+    opt = call["style"].startswith("opt")      # the probe has an unguarded defaulted parameter after p1
+    if opt:
+        if n == 1:
+            def body(p1, opt=None):  # pylint: disable=unused-argument
+                return result()
+        elif n == 2:
+            def body(p1, opt=None, p2=None):  # pylint: disable=unused-argument
+                return result()
+        else:
+            def body(p1, opt=None, p2=None, p3=None):  # pylint: disable=unused-argument
+                return result()
+    elif n == 1:
         def body(p1):  # pylint: disable=unused-argument
             return result()
     elif n == 2:
@@ -239,8 +277,7 @@ def make_call(call, salt=0):
     elif call["r"]["rk"] == "same":
         f = r["validate_output_same"]("p1")(f)
     f = r["validate_input"](**{NAMES[i]: build_decl(call["decls"][i], salt + i) for i in range(n)})(f)
-    pos = args[:call["npos"]]
-    kw = {NAMES[i]: args[i] for i in range(call["npos"], n)}
+    pos, kw = pass_arguments(call["style"], args)
     try:
         with time_limit(10):
             f(*pos, **kw)
@@ -304,7 +341,7 @@ def call_text(call):
         s += f" -> result {full(call['r']['res'])} vs {declstr(call['r']['rd'])}"
     elif call["r"]["rk"] == "same":
         s += f" -> result {full(call['r']['res'])} same as p1"
-    return s + f" [{call['npos']} positional]"
+    return s + f" [{call['style']}]"
 
 
 def call_key(call, allowed, observed):
@@ -490,9 +527,10 @@ class _StopAtRun(BaseException):
 NONE_R = {"rk": "none", "res": {"k": "none"}, "rd": {"k": "none"}}
 
 
-def record_call(g, kwargs, guards):
-    """Call the published function with kwargs, recording the gate's decisions up to the body.
-    guards: judged guard names in signature order.  Returns (events, note)."""
+def record_call(g, kwargs, guards, how="kwrev"):
+    """Call the published function, recording the gate's decisions up to the body.
+    guards: judged guard names in signature order.  how: "pos" (all positional), "kw" (keywords in signature
+    order) or "kwrev" (keywords in reverse signature order).  Returns (events, note)."""
     hooks = _real()["hooks"]
     raw = []
 
@@ -506,7 +544,12 @@ def record_call(g, kwargs, guards):
     hooks.sink = sink
     try:
         with time_limit(20):
-            g.wrapper(**kwargs)
+            if how == "pos":
+                g.wrapper(*[kwargs[p] for p in g.params])
+            elif how == "kw":
+                g.wrapper(**{p: kwargs[p] for p in g.params})
+            else:
+                g.wrapper(**{p: kwargs[p] for p in reversed(g.params)})
         ran = True            # no input layer: the body ran
     except _StopAtRun:
         ran = True
@@ -580,7 +623,7 @@ def function_traces(g, seed, tier):
         if v is catalogue.UNKNOWN:
             base[p] = None          # not guarded: the gate does not look at it
 
-    def one(variant, kwargs):
+    def one(variant, kwargs, how="kwrev"):
         args = []
         for p in guards:
             a, why = abstract_actual(kwargs[p])
@@ -588,13 +631,16 @@ def function_traces(g, seed, tier):
                 notes.append(("outside", why))
                 return
             args.append(a)
-        ev, why = record_call(g, kwargs, guards)
+        ev, why = record_call(g, kwargs, guards, how)
         if ev is None:
             notes.append(("outside", why))
             return
         traces.append((variant, {"n": len(guards), "args": args, "decls": [decls[p] for p in guards], "r": NONE_R}, ev))
 
-    one("valid", dict(base))
+    # the verdict must not depend on how the arguments are passed: valid arguments positionally and by keyword
+    # in reverse signature order; every wrong-dimension argument by keyword in reverse signature order
+    one("valid", dict(base), "pos")
+    one("valid:kwrev", dict(base), "kwrev")
     from symplyphysics import Quantity
     for p in guards:
         dim = catalogue.declared_dimension(g.inputs[p])
@@ -713,7 +759,7 @@ def catalogue_clause(run: Run, sc, pool, tier: str, only=None):
                 traces.append((f"catalogue {q}:{variant}", text,
                                {"kind": "catalogue", "module": rec["module"], "name": rec["name"], "variant": variant},
                                call, ev))
-                if variant not in ("valid",) and len(run.samples) < 6:
+                if not variant.startswith("valid") and len(run.samples) < 6:
                     run.sample({"trace": text, "events": ev})
     traces.sort(key=lambda t: t[0])
     run.coverage["catalogue"] = {"functions": nfun, "guarded_parameters": nguards, "traces": len(traces)}
